@@ -81,10 +81,13 @@ func (p *PropConfig) selects(o *Obligation) bool {
 		if !s.re.MatchString(o.Func) {
 			continue
 		}
+		if o.Kind == "contract" {
+			return true // a clause that no longer fits the code is never silently dropped
+		}
 		if s.nre != nil && !s.nre.MatchString(o.Name) {
 			continue
 		}
-		if len(s.Kinds) == 0 || o.Kind == "contract" || o.Kind == "canary" || o.Kind == "cover" {
+		if len(s.Kinds) == 0 || o.Kind == "canary" || o.Kind == "cover" {
 			return true
 		}
 		fam := strings.SplitN(o.Kind, ".", 2)[0]
@@ -232,6 +235,18 @@ func cmdCheck(args []string) {
 		timeout = 60000
 	}
 	g.canary = true
+	var renamed []string
+	for fk, m := range g.alias {
+		if pc.funcRe().MatchString(fk) {
+			for o, n := range m {
+				renamed = append(renamed, fmt.Sprintf("%s: %s -> %s", fk, o, n))
+			}
+		}
+	}
+	sort.Strings(renamed)
+	for _, r := range renamed {
+		fmt.Println("RENAMED-VARIABLE (contracts follow it):", r)
+	}
 	res := g.runAll(pc.funcRe(), nil, timeout, pc.selects)
 	broken := false
 	for _, e := range g.ann.errs {
@@ -454,6 +469,9 @@ func cmdCheck(args []string) {
 		"cover_reachable":          fmt.Sprintf("%d/%d", coverOK, coverTotal),
 		"lemmas":                   fmt.Sprintf("%d/%d", lemmaOK, lemmaTotal),
 		"explanation":              "every obligation is a verification condition generated from go/ssa of /repo's working tree for the listed functions; discharged == obligations means every one was answered unsat",
+	}
+	if len(renamed) > 0 {
+		ev.Coverage["renamed_variables_followed"] = renamed
 	}
 	if cross != nil {
 		ev.Coverage["thorough_cross_check"] = cross
